@@ -26,7 +26,10 @@ import (
 //	    through Connect)} ∪ {(destination, name of a service-defaults with a Destination)} (table rows
 //	    and ServiceNamesOfKind);
 //	(5) virtual IPs: no address assigned twice, none both assigned and free, and the address an instance
-//	    advertises is its service's current assignment (table and VirtualIPForService);
+//	    advertises is its service's current assignment (table and VirtualIPForService); with
+//	    terminating-gateway virtual IPs on: no assignment is released while a terminating gateway links the
+//	    service, and the consul-virtual:<svc> addresses of the gateway instances are the assignments of the
+//	    services their entry links;
 //	(6) gateway-services = the links the gateway config entries declare, wildcards expanded over the
 //	    registered services (table and GatewayServices);
 //	(7) mesh-topology = the (upstream, downstream) pairs of the local sidecar registrations and of the
@@ -38,9 +41,12 @@ type Monitor struct {
 	// history facts used only to NAME a finding (signature), never to decide it
 	caseNames     bool            // two service names differing only in case were registered in this history
 	importedPairs map[string]bool // (upstream, downstream) pairs an imported sidecar declared at some point of this history
+	tgwFreed      map[string]bool // lower(service) whose virtual IP was released while a terminating gateway linked it (flag on)
 }
 
-func NewMonitor() *Monitor { return &Monitor{prev: map[string]string{}, importedPairs: map[string]bool{}} }
+func NewMonitor() *Monitor {
+	return &Monitor{prev: map[string]string{}, importedPairs: map[string]bool{}, tgwFreed: map[string]bool{}}
+}
 
 type finding struct {
 	sig, key, desc string
@@ -445,7 +451,72 @@ func keepsVip(t *state.VerifC07Tables, peer, name string) bool {
 	return false
 }
 
-func (m *Monitor) vips(w *World, t *state.VerifC07Tables, op *Op) (out []finding) {
+func tgwVipsSupported(t *state.VerifC07Tables) bool {
+	for _, e := range t.SysMeta {
+		if e.Key == structs.SystemMetadataTermGatewayVirtualIPsEnabled {
+			return e.Value != ""
+		}
+	}
+	return false
+}
+
+// tgwLinks: the terminating gateways (other than `except`) that a gateway-services row links to service `name`
+func tgwLinks(t *state.VerifC07Tables, name, except string) (gws []string) {
+	for _, g := range t.Gateway {
+		if g.GatewayKind == structs.ServiceKindTerminatingGateway && strings.EqualFold(g.Service.Name, name) &&
+			(except == "" || !strings.EqualFold(g.Gateway.Name, except)) {
+			gws = append(gws, g.Gateway.Name)
+		}
+	}
+	return
+}
+
+const sigTgwFreed = "vip:freed-while-terminating-gateway-links-service"
+
+func (m *Monitor) vips(w *World, before, t *state.VerifC07Tables, op *Op) (out []finding) {
+	// (5a) with terminating-gateway virtual IPs on, a local service that a terminating gateway links keeps its address
+	// (freeServiceVirtualIP's gateway guard): an assignment present before the command and gone after it, while a
+	// gateway-services row of a terminating gateway — other than a gateway whose config entry this very command
+	// rewrites or deletes — links the service before and after the command, was released wrongly
+	// (only commands that do one thing: a registration may rename a node by ID — delete the old node with its instances,
+	// releasing addresses rightly while no link exists, then register the instance again, which re-creates the link)
+	if vipsSupported(before) && tgwVipsSupported(before) && (op.Kind == "dereg" || op.Kind == "cfgdel" || op.Kind == "cfgset") {
+		still := map[string]bool{}
+		for _, r := range t.VIPs {
+			if r.Service.Peer == "" {
+				still[lower(r.Service.ServiceName.Name)] = true
+			}
+		}
+		except := ""
+		if (op.Kind == "cfgset" || op.Kind == "cfgdel") && op.Cfg != nil && op.Cfg.Kind == structs.TerminatingGateway {
+			except = op.Cfg.Name
+		}
+		for _, r := range before.VIPs {
+			name := r.Service.ServiceName.Name
+			if r.Service.Peer != "" || still[lower(name)] {
+				continue
+			}
+			// the link must have been there before the command and still be there after it (a command that deletes the
+			// last instance and registers a new one — a rename by node ID, a transaction — may release the address
+			// rightly and create the link afterwards)
+			was := map[string]bool{}
+			for _, g := range tgwLinks(before, name, except) {
+				was[lower(g)] = true
+			}
+			var gws []string
+			for _, g := range tgwLinks(t, name, except) {
+				if was[lower(g)] {
+					gws = append(gws, g)
+				}
+			}
+			if len(gws) > 0 {
+				m.tgwFreed[lower(name)] = true
+				out = append(out, finding{sigTgwFreed, "vipfreed-tgw/" + lower(name) + "/" + fmt.Sprint(op.Idx),
+					fmt.Sprintf("the virtual IP of service %q (offset %s) was released by %s although terminating gateway %q still links the service (terminating-gateway virtual IPs on)",
+						name, rawIPOffset(r.IP), op.Kind, gws[0])})
+			}
+		}
+	}
 	byIP := map[string]string{}
 	assigned := map[string]string{} // lower(peer) \0 lower(name) -> raw offset
 	for _, r := range t.VIPs {
@@ -483,19 +554,30 @@ func (m *Monitor) vips(w *World, t *state.VerifC07Tables, op *Op) (out []finding
 		switch {
 		case !has:
 			sig := "vip:advertised-address-has-no-assignment"
-			// the recorded mechanism frees the address when NO instance is named like the service and NO config
-			// entry keeps it; losing it while one of those exists is another matter
+			// the recorded mechanism frees the address when NO instance is named like the service, NO config
+			// entry keeps it and NO terminating gateway links it; losing it while one of those exists is another matter
 			if keepsVip(t, v.PeerName, cn) && (op.Kind == "dereg" || op.Kind == "cfgdel") {
 				sig += ":although-an-instance-or-config-entry-keeps-it"
+			}
+			if isLocal(v.PeerName) && m.tgwFreed[lower(cn)] {
+				sig = sigTgwFreed
 			}
 			out = append(out, finding{sig, "vipadv-none/" + svcKey(v.PeerName, v.Node, v.ServiceID),
 				fmt.Sprintf("instance %s advertises virtual IP %s for service %q, which has no virtual IP assigned", inst, a.Address, cn)})
 		case cur != off:
-			out = append(out, finding{"vip:advertised-address-differs-from-assignment", "vipadv-diff/" + svcKey(v.PeerName, v.Node, v.ServiceID),
+			sig := "vip:advertised-address-differs-from-assignment"
+			if isLocal(v.PeerName) && m.tgwFreed[lower(cn)] {
+				sig = sigTgwFreed
+			}
+			out = append(out, finding{sig, "vipadv-diff/" + svcKey(v.PeerName, v.Node, v.ServiceID),
 				fmt.Sprintf("instance %s advertises virtual IP %s (offset %s) for service %q, whose assignment is offset %s", inst, a.Address, off, cn, cur)})
 		}
 		if other, ok := adv[off]; ok && other != key {
-			out = append(out, finding{"vip:two-services-advertise-one-address", "vipadv2/" + off,
+			sig := "vip:two-services-advertise-one-address"
+			if m.tgwFreed[strings.TrimPrefix(other, "\x00")] || m.tgwFreed[strings.TrimPrefix(key, "\x00")] {
+				sig = sigTgwFreed
+			}
+			out = append(out, finding{sig, "vipadv2/" + off,
 				fmt.Sprintf("virtual IP %s is advertised by instances of two services (%q and %q)", a.Address, strings.ReplaceAll(other, "\x00", "/"), strings.ReplaceAll(key, "\x00", "/"))})
 		}
 		adv[off] = key
@@ -505,6 +587,67 @@ func (m *Monitor) vips(w *World, t *state.VerifC07Tables, op *Op) (out []finding
 			out = append(out, finding{"vip:api-error", "", err.Error()})
 		} else if has && got != "" && vipOffset(got) != cur {
 			out = append(out, finding{"vip:api-differs-from-table", "", fmt.Sprintf("VirtualIPForService(%s) = %s, table offset %s", cn, got, cur)})
+		}
+	}
+	// (5c) what the instances of a terminating gateway advertise for the services their gateway's entry links
+	// (TaggedAddresses["consul-virtual:<svc>"]; only links the entry currently declares — tags of a deleted entry stay behind)
+	if vipsSupported(t) && tgwVipsSupported(t) {
+		for _, v := range t.Services {
+			if !isLocal(v.PeerName) || v.ServiceKind != structs.ServiceKindTerminatingGateway {
+				continue
+			}
+			var tags []string
+			for key := range v.ServiceTaggedAddresses {
+				if strings.HasPrefix(key, structs.TaggedAddressVirtualIP+":") {
+					tags = append(tags, key)
+				}
+			}
+			sort.Strings(tags)
+			for _, key := range tags {
+				svc := strings.TrimPrefix(key, structs.TaggedAddressVirtualIP+":")
+				linked := false
+				for _, g := range t.Gateway {
+					if g.GatewayKind == structs.ServiceKindTerminatingGateway && !g.FromWildcard &&
+						strings.EqualFold(g.Gateway.Name, v.ServiceName) && strings.EqualFold(g.Service.Name, svc) {
+						linked = true
+					}
+				}
+				if !linked {
+					continue
+				}
+				a := v.ServiceTaggedAddresses[key]
+				off := vipOffset(a.Address)
+				akey := "\x00" + lower(svc)
+				inst := fmt.Sprintf("%s/%s (terminating gateway %s)", v.Node, v.ServiceID, v.ServiceName)
+				pick := func(sig string) string {
+					if m.tgwFreed[lower(svc)] {
+						return sigTgwFreed
+					}
+					return sig
+				}
+				cur, has := assigned[akey]
+				switch {
+				case !has:
+					out = append(out, finding{pick("vip:gateway-advertised-address-has-no-assignment"), "vipgw-none/" + svcKey("", v.Node, v.ServiceID) + "/" + lower(svc),
+						fmt.Sprintf("instance %s advertises virtual IP %s for linked service %q, which has no virtual IP assigned", inst, a.Address, svc)})
+				case cur != off:
+					out = append(out, finding{pick("vip:gateway-advertised-address-differs-from-assignment"), "vipgw-diff/" + svcKey("", v.Node, v.ServiceID) + "/" + lower(svc),
+						fmt.Sprintf("instance %s advertises virtual IP %s (offset %s) for linked service %q, whose assignment is offset %s", inst, a.Address, off, svc, cur)})
+				}
+				if other, ok := adv[off]; ok && other != akey {
+					// the gateway's own advertisement is the current assignment: the other advertiser is a sidecar /
+					// native instance left with a released address that was handed out again (the recorded mechanism)
+					sig := "vip:two-services-advertise-one-address"
+					if !has || cur != off {
+						sig = "vip:gateway-and-another-service-advertise-one-address"
+					}
+					if m.tgwFreed[lower(svc)] || m.tgwFreed[strings.TrimPrefix(other, "\x00")] {
+						sig = sigTgwFreed
+					}
+					out = append(out, finding{sig, "vipgw2/" + off,
+						fmt.Sprintf("virtual IP %s is advertised by %s for %q and by instances of %q", a.Address, inst, svc, strings.ReplaceAll(other, "\x00", "/"))})
+				}
+			}
 		}
 	}
 	return
@@ -918,7 +1061,7 @@ func (m *Monitor) Check(w *World, before, after *Snap, op *Op, res string) []fin
 	fs = append(fs, orphans(t)...)
 	fs = append(fs, m.usage(w, t)...)
 	fs = append(fs, m.kindNames(w, &before.T, t, op)...)
-	fs = append(fs, m.vips(w, t, op)...)
+	fs = append(fs, m.vips(w, &before.T, t, op)...)
 	fs = append(fs, m.gateways(w, t)...)
 	fs = append(fs, m.topology(&before.T, t, op)...)
 	// a discrepancy keeps the signature it was given when it appeared (the naming may look at the command
